@@ -51,6 +51,9 @@ def gen_inline(d, g):
             out.append(["expr", ["bin", d.choice(["&", "|"]), ["dyn", d.choice(["d0", "d1"])], g.cmp(0)]])
         else:
             out.append(["expr", ["bin", "&", ["dyn", "d0"], ["not", ["dyn", "d1"]]]])
+    if d.chance(12):
+        # another instance of the class is constructed while the block is open: the statements written so far stay
+        out.insert(d.randint(1, len(out)), ["mk"])
     return out
 
 
